@@ -46,7 +46,8 @@ TreeFaults(sn, e, lits, pred) ==
      ELSE NoFail
 Judge(sn, e, wf, o, lits) ==
   \* wf: the input is well-formed; o: the prediction (only if wf)
-  IF e.out = "panic" THEN <<"panic", "", IF wf THEN o.cls ELSE "error">>
+  \* value xor error: anything but a tree or an error (a panic, neither, both) is a failure
+  IF e.out \notin {"tree", "error"} THEN <<e.out, "", IF wf THEN o.cls ELSE "error">>
   ELSE IF ~wf THEN (IF e.out = "error" THEN NoFail
                     ELSE LET f == TreeFaults(sn, e, lits, "error") IN IF f # NoFail THEN f ELSE <<"accepted-ill-formed", "", "error">>)
   ELSE IF e.out = "error" THEN (IF o.cls = "tree" THEN <<"rejected-valid", "", "tree">> ELSE NoFail)
@@ -56,7 +57,7 @@ Judge(sn, e, wf, o, lits) ==
        ELSE f
 DecodeFault(sn, e) ==
   IF ~e.hastoks
-  THEN (IF e.out = "panic" THEN <<"panic", "", "">> ELSE IF e.out = "tree" THEN TreeFaults(sn, e, {}, "") ELSE NoFail)
+  THEN (IF e.out \notin {"tree", "error"} THEN <<e.out, "", "">> ELSE IF e.out = "tree" THEN TreeFaults(sn, e, {}, "") ELSE NoFail)
   ELSE IF IsX(e)
   THEN LET p == XParse(e.xtoks) IN
        Judge(sn, e, p.ok, IF p.ok /\ ~p.trailing THEN DecX(sn, p.e) ELSE OpenOut, IF p.ok THEN XLitsOf(p.e) ELSE {})
